@@ -51,7 +51,7 @@ from vlib import f2b, fs2b, b2fs
 from props import wrapgen
 
 ID = "C12"
-GEN = ["Wrappers"]
+GEN = ["Wrappers", "UnwrapGen"]
 RULE = ("random real pytrees over the five flowjax.wrappers classes (depth<=4: NonTrainable / BijectionReparam(Exp|SoftPlus) / "
         "Where / WeightNormalization / Lambda nested in each other and in tuples, lists, dicts, eqx Modules and real bijections, "
         "shared sub-objects, float/int/bool arrays, non-array leaves, None), the same under 1-2 levels of eqx.filter_vmap, "
@@ -64,6 +64,10 @@ TRUSTED = [
     "hand model Model/Tree.lean of jax.tree_util flattening order, eqx.partition/combine/apply_updates, ravel_pytree, "
     "eqx.filter_vmap (leafwise stack of per-slice results) — validated by this correspondence on every run",
     "the generic encoder of real pytrees in tools/props/c12.py (one-level flattening, array identity)",
+    "the TRAVERSAL (unwrap, recursive_unwrap with vectorized_unwrap / v_unwrap / the reversed(_dummy.shape) filter_vmap loop, non_trainable, the partition "
+    "statement of fit_to_data / fit_to_variational_target) is regenerated (Gen/UnwrapGen.lean; translator tools/py2lean/py2meth.py + sheet targets_unwrap.py) and "
+    "PROVED equal to Model/Tree.lean; trusted there: the library meanings of Model/UnwrapWorld.lean (tree_map, tree_flatten_one_level / tree_unflatten, "
+    "filter_vmap on a module, isinstance, _dummy, eqx.partition) and the fuel knot of Model/UnwrapKnot.lean (proved fuel-independent) — run beside the real code on every tree",
     "the per-class .unwrap() bodies are an abstract parameter f of the theorems (hypothesis WrapFree f), instantiated with the bodies regenerated from "
     "flowjax/wrappers.py (Gen/Wrappers.lean; translator tools/py2lean/py2nd.py + typing sheet targets_wrappers.py trusted and compared with the real unwrap "
     "on every run; a Lambda's function stays a parameter); bit-identity is Lean equality of array data",
@@ -699,13 +703,103 @@ def compare_tree(c, batch, t, desc, L=0, use_batch=True, rng=None, do_unwrap=Tru
     return enc
 
 
+def compare_generated(c, batch, t, desc, L=0, use_batch=True, nontrivial=True, real_unwrap=True):
+    """The GENERATED traversal (`Gen/UnwrapGen.lean`: `unwrap` / `recursive_unwrap` / `non_trainable` / the partition statement of the
+    training loops, driver ops `pytree gunwrap|gpart|gnt`) beside the hand model and the REAL code on the same encoded tree."""
+    enc = Enc(use_batch=use_batch)
+    ts = " ".join(enc.enc(t, L))
+    is_nt = lambda l: isinstance(l, NonTrainable)  # noqa: E731
+    if real_unwrap:
+        with jax.disable_jit():
+            u = unwrap(t)
+            uu = unwrap(u)
+        real = dict(skel=enc.skel(u), idem=trees_bitwise_equal(u, uu), nowrap=not has_wrappers(u))
+
+        def h_gunwrap(line, out, real=real):
+            if out.startswith("ERR"):
+                c.mismatch("generated-unwrap-rejects", op=line[:400], model=out, desc=desc)
+                return
+            sk, idem, nowrap, dims, hand, fuel, rec = out.split(" | ")
+            if not skel_match(sk, real["skel"]):
+                c.mismatch("generated-unwrap-structure", op=line[:400], model=sk, impl=real["skel"], desc=desc)
+            if idem != "1" or not real["idem"]:
+                c.mismatch("generated-unwrap-idempotent", op=line[:400], model=idem, impl=real["idem"], desc=desc)
+            if nowrap != "1" or not real["nowrap"]:
+                c.mismatch("generated-unwrap-no-wrappers", op=line[:400], model=nowrap, impl=real["nowrap"], desc=desc)
+            if hand != "1":
+                c.mismatch("generated-unwrap-vs-hand-model", op=line[:400], desc=desc)
+            if fuel != "1":
+                c.mismatch("generated-unwrap-fuel-dependent", op=line[:400], desc=desc)
+            if rec != "1":
+                c.mismatch("generated-recursive-unwrap-vs-hand-model", op=line[:400], desc=desc)
+        line = "pytree gunwrap " + ts
+        batch.add(line, h_gunwrap)
+        c.case((ts, "gunwrap"), nontrivial, sample={"op": line[:240], "impl": {"skel": real["skel"][:200]}} if nontrivial else None)
+        c.count("generated-unwrap")
+
+    p, s = eqx.partition(t, eqx.is_inexact_array, is_leaf=is_nt)
+    pid = [enc.arr_ids[id(a)] for a in real_leaves(p)]
+    sid = [enc.arr_ids[id(a)] for a in real_leaves(s)]
+    nparams = sum(int(np.size(a)) for a in real_leaves(p))
+    skp, sks = enc.skel(p), enc.skel(s)
+
+    def h_gpart(line, out):
+        if out.startswith("ERR"):
+            c.mismatch("generated-partition-rejects", op=line[:400], model=out, desc=desc)
+            return
+        mp, ms, sp, ss, npar, comb, mskp, msks, same, hand = out.split(" | ")
+        mp = [int(v) for v in mp.split(",")] if mp != "-" else []
+        ms = [int(v) for v in ms.split(",")] if ms != "-" else []
+        if mp != pid or ms != sid:
+            c.mismatch("generated-partition-halves", op=line[:400], model=[mp, ms], impl=[pid, sid], desc=desc)
+        if sp != "-":
+            c.mismatch("generated-partition-nonarray-in-params", op=line[:400], model=sp, desc=desc)
+        if int(npar) != nparams:
+            c.mismatch("generated-partition-num-params", op=line[:400], model=npar, impl=nparams, desc=desc)
+        if comb != "1":
+            c.mismatch("generated-partition-combine", op=line[:400], desc=desc)
+        if not skel_match(mskp, skp) or not skel_match(msks, sks):
+            c.mismatch("generated-partition-structure", op=line[:400], model=[mskp, msks], impl=[skp, sks], desc=desc)
+        if same != "1":
+            c.mismatch("generated-partition-data-fit-vs-variational-fit", op=line[:400], desc=desc)
+        if hand != "1":
+            c.mismatch("generated-partition-vs-hand-model", op=line[:400], desc=desc)
+    line = "pytree gpart " + ts
+    batch.add(line, h_gpart)
+    c.case((ts, "gpart"), bool(pid) and bool(sid))
+    c.count("generated-partition")
+
+    # non_trainable(t): structure, nothing trainable afterwards
+    nt = non_trainable(t)
+    np_, ns_ = eqx.partition(nt, eqx.is_inexact_array, is_leaf=is_nt)
+    want = dict(skel=enc.skel(nt), p=[enc.arr_ids[id(a)] for a in real_leaves(np_)], s=[enc.arr_ids[id(a)] for a in real_leaves(ns_)])
+
+    def h_gnt(line, out, want=want):
+        if out.startswith("ERR"):
+            c.mismatch("generated-non-trainable-rejects", op=line[:400], model=out, desc=desc)
+            return
+        sk, mp, ms, hand = out.split(" | ")
+        mp = [int(v) for v in mp.split(",")] if mp != "-" else []
+        ms = [int(v) for v in ms.split(",")] if ms != "-" else []
+        if not skel_match(sk, want["skel"]):
+            c.mismatch("generated-non-trainable-structure", op=line[:400], model=sk, impl=want["skel"], desc=desc)
+        if mp != want["p"] or ms != want["s"] or mp:
+            c.mismatch("generated-non-trainable-partition", op=line[:400], model=[mp, ms], impl=[want["p"], want["s"]], desc=desc)
+        if hand != "1":
+            c.mismatch("generated-non-trainable-vs-hand-model", op=line[:400], desc=desc)
+    line = "pytree gnt " + ts
+    batch.add(line, h_gnt)
+    c.case((ts, "gnt"), bool(sid) and bool(pid))
+    c.count("generated-non-trainable")
+
+
 # ------------------------------------------------------------------ vmapped construction
-def vmapped_case(rng, levels):
+def vmapped_case(rng, levels, kind=None):
     """returns (mk, batched inputs, axis sizes): mk builds a nest of wrappers from array arguments"""
     g = Gen(rng)
     sizes = [rng.choice([1, 2, 3]) for _ in range(levels)]
     shape = rng.choice([(), (2,), (3,)])
-    kind = rng.choice(["la", "br", "br_la", "la_br_cont", "nt_la", "wh_same", "pair", "ident", "la_bool", "la_int"])
+    kind = kind or rng.choice(["la", "br", "br_la", "la_br_cont", "nt_la", "wh_same", "pair", "ident", "la_bool", "la_int"])
     tags = [g.t() for _ in range(6)]
     mask = g.mask(shape)
 
@@ -1073,6 +1167,7 @@ def corr(c, tier, rng):
             g = Gen(rng)
             t = g.tree(rng.choice([1, 2, 3, 3, 4, 4, 5]))
             compare_tree(c, batch, t, f"random-tree#{i}", rng=rng)
+            compare_generated(c, batch, t, f"random-tree#{i}")
         except Exception as ex:
             c.mismatch("harness-exception", desc=f"random-tree#{i}", exc=repr(ex)[:300])
         c.count("random-trees")
@@ -1087,6 +1182,9 @@ def corr(c, tier, rng):
             for v in viol:
                 c.mismatch("vmapped-unwrap-vs-stack", desc=f"{kind} sizes={sizes}", detail=v)
             c.case((kind, tuple(sizes), "vmapped-stack", i), True)
+            # the GENERATED traversal on the vmapped-built tree (bool / int mapped leaves included: every array leaf is sliced)
+            compare_generated(c, batch, V, f"vmapped:{kind}:{sizes}", L=levels)
+            c.count(f"generated-vmapped:{kind}")
             if kind in ("la_bool", "la_int"):
                 continue  # non-float mapped leaves: real-vs-real stack oracle only (the tree model's Lambda functions are float-valued)
             enc = compare_tree(c, batch, V, f"vmapped:{kind}:{sizes}", L=levels, nontrivial=True)
@@ -1112,6 +1210,19 @@ def corr(c, tier, rng):
             c.mismatch("harness-exception", desc=f"vmapped#{i}:{kind}", exc=repr(ex)[:300])
         c.count(f"vmapped-levels:{levels}")
 
+    # B'. the GENERATED traversal on every vmapped kind with a bool / int / float mapped Lambda leaf, 1 and 2 levels (not left to chance)
+    for kind in ("la_bool", "la_int", "la", "br_la"):
+        for levels in (1, 2):
+            try:
+                kind, mk, x, y, sizes = vmapped_case(rng, levels, kind=kind)
+                f = mk
+                for _ in sizes:
+                    f = eqx.filter_vmap(f)
+                compare_generated(c, batch, f(x, y), f"vmapped-generated:{kind}:{sizes}", L=levels)
+                c.count(f"generated-vmapped:{kind}")
+            except Exception as ex:
+                c.mismatch("harness-exception", desc=f"vmapped-generated:{kind}:{levels}", exc=repr(ex)[:300])
+
     # C. real flows: model partition / num_params / unwrap structure; methods; gradients; training
     key, k1, k2 = jr.split(key, 3)
     try:
@@ -1124,6 +1235,7 @@ def corr(c, tier, rng):
         for vname, fz in vs:
             try:
                 compare_tree(c, batch, fz, f"flow:{name}:{vname}", use_batch=False, rng=rng, nontrivial=True)
+                compare_generated(c, batch, fz, f"flow:{name}:{vname}", use_batch=False)
                 for v in grad_violations(fz, k2):
                     c.mismatch("gradient-of-frozen", desc=f"{name}:{vname}", detail=v)
                 c.case((name, vname, "grad"), True)
@@ -1133,6 +1245,7 @@ def corr(c, tier, rng):
     try:
         bn = B.BlockAutoregressiveNetwork(k1, dim=2, depth=1, block_dim=2)
         compare_tree(c, batch, bn, "BNAF-network", use_batch=False, rng=rng, nontrivial=True)
+        compare_generated(c, batch, bn, "BNAF-network", use_batch=False)
         compare_tree(c, batch, eqx.tree_at(lambda b: b.layers[0][0].weight, bn, replace_fn=NonTrainable), "BNAF-network-frozen-weight", use_batch=False, rng=rng, nontrivial=True)
     except Exception as ex:
         c.mismatch("harness-exception", desc="BNAF-network", exc=repr(ex)[:300])
